@@ -64,6 +64,7 @@ type replayCase struct {
 	Scenario     string  `json:"scenario"`
 	Schedule     []int16 `json:"schedule"`
 	Instrumented bool    `json:"instrumented"`
+	Coarse       bool    `json:"coarse_granularity"`
 	Kind         string  `json:"kind"`
 }
 
@@ -85,24 +86,33 @@ func goCmd(args ...string) *exec.Cmd {
 // buildHarness instruments the tree and builds the -race harness. If instrumentation
 // or the instrumented build fails it falls back to the plain -race build (threads then
 // interleave only at call boundaries) and reports that.
-func buildHarness(r *mc.Run) error {
+var built = map[bool]string{}
+
+var granularity = map[bool]string{true: "statements in tokens/..., function entries in ecdsa/ ed25519/ util/ quicwire/", false: "statements everywhere (except pure field/scalar arithmetic and table lookups)"}
+
+func buildHarness(r *mc.Run, coarse bool) error {
+	if p, ok := built[coarse]; ok {
+		harness = p
+		return nil
+	}
 	base, err := vinstr.ReadOverlay(os.Getenv("VERIF_OVERLAY"))
 	if err != nil {
 		return err
 	}
-	harness = filepath.Join(workDir, "c17h")
-	vinstr.Coarse = !r.Thorough()
-	r.Set("instrumentation_granularity", map[bool]string{true: "statements in tokens/..., function entries in ecdsa/ ed25519/ util/ quicwire/", false: "statements everywhere (except pure field/scalar arithmetic and table lookups)"}[vinstr.Coarse])
-	ov, sites, ierr := vinstr.Instrument("/repo", filepath.Join(workDir, "src"), base)
+	sub := map[bool]string{true: "coarse", false: "fine"}[coarse]
+	harness = filepath.Join(workDir, "c17h-"+sub)
+	defer func() { built[coarse] = harness }()
+	vinstr.Coarse = coarse
+	ov, sites, ierr := vinstr.Instrument("/repo", filepath.Join(workDir, "src-"+sub), base)
 	if ierr == nil {
-		op := filepath.Join(workDir, "overlay.json")
+		op := filepath.Join(workDir, "overlay-"+sub+".json")
 		if err := vinstr.WriteOverlay(op, ov); err != nil {
 			return err
 		}
 		out, err := goCmd("build", "-race", "-tags", "verif", "-overlay", op, "-o", harness, "./checks/c17/harness").CombinedOutput()
 		if err == nil {
 			instr = true
-			r.Set("scheduling_points_inserted", len(sites))
+			r.Set("scheduling_points_inserted_"+sub, len(sites))
 			if keep := os.Getenv("C17_KEEP_HARNESS"); keep != "" {
 				if b, e := os.ReadFile(harness); e == nil {
 					os.WriteFile(keep, b, 0o755)
@@ -256,66 +266,28 @@ type scenStat struct {
 	raceSeen    bool
 }
 
-func main() {
-	r := mc.Start("C17", "model_checking")
-	seedv = r.Seed
-	root = r.Root
-	var err error
-	workDir, err = os.MkdirTemp("", "c17-")
-	if err != nil {
-		panic(err)
-	}
-	r.OnExit(func() { os.RemoveAll(workDir) })
+// runPass explores every scenario with the given granularity and pre-emption bound.
+func runPass(r *mc.Run, pass string, coarse bool, bound int, budget time.Duration, fail func(error)) map[string]any {
 	t0 := time.Now()
-	if err := buildHarness(r); err != nil {
-		fmt.Fprintln(os.Stderr, err)
-		fmt.Fprintln(os.Stderr, "BUILD-FAILED C17: the harness does not build against the tree under test")
-		os.RemoveAll(workDir)
-		os.Exit(2)
+	if err := buildHarness(r, coarse); err != nil {
+		fail(err)
 	}
-	r.Set("build_s", float64(int(time.Since(t0).Seconds()*10))/10)
-
-	r.RegisterReplay("schedule", func(pj json.RawMessage) *mc.Viol {
-		var c replayCase
-		json.Unmarshal(pj, &c)
-		// a fresh worker per attempt: the race detector reports a given race once per process
-		for k := 0; k < 3; k++ {
-			w, err := startWorker()
-			if err != nil {
-				continue
-			}
-			rp, err := w.call(request{Scenario: c.Scenario, Prefix: c.Schedule})
-			w.stop()
-			if err != nil || rp == nil {
-				continue
-			}
-			if rp.Violation != nil {
-				return &mc.Viol{Sig: c.Scenario + ": " + sigOf(*rp.Violation), What: describe(*rp.Violation)}
-			}
-		}
-		return nil
-	})
-	if r.IsReplay() {
-		r.DoReplay()
+	buildS := time.Since(t0).Seconds()
+	nw := runtime.NumCPU()
+	if nw > 16 {
+		nw = 16
 	}
-
 	out, err := exec.Command(harness, "-list").Output()
 	if err != nil {
 		r.Note("cannot list scenarios: %v", err)
 	}
 	scens := strings.Fields(string(out))
-	bound := mc.Pick(r, 1, 2)
-	budget := time.Duration(mc.Pick(r, 240, 2400)) * time.Second
 	if s := os.Getenv("C17_BUDGET_S"); s != "" {
 		var n int
 		fmt.Sscan(s, &n)
 		budget = time.Duration(n) * time.Second
 	}
 	deadline := time.Now().Add(budget)
-	nw := runtime.NumCPU()
-	if nw > 16 {
-		nw = 16
-	}
 
 	type job struct {
 		scen   string
@@ -410,7 +382,7 @@ func main() {
 				st.raceSeen = true
 			}
 			if len(viols) < 200 {
-				viols = append(viols, pendingViol{replayCase{Scenario: v.Scenario, Schedule: v.Schedule, Instrumented: instr, Kind: v.Kind}, &mc.Viol{Sig: v.Scenario + ": " + sigOf(v), What: describe(v)}})
+				viols = append(viols, pendingViol{replayCase{Scenario: v.Scenario, Schedule: v.Schedule, Instrumented: instr, Coarse: coarse, Kind: v.Kind}, &mc.Viol{Sig: v.Scenario + ": " + sigOf(v), What: describe(v)}})
 			}
 		}
 		// children
@@ -529,7 +501,7 @@ func main() {
 		r.Violation("schedule", pv.c, pv.v)
 	}
 
-	per := map[string]any{}
+	per := map[string]any{"preemption_bound": bound, "granularity": granularity[coarse]}
 	names := append([]string{}, scens...)
 	sort.Strings(names)
 	freeOnly := 0
@@ -538,17 +510,17 @@ func main() {
 		per[n] = map[string]any{"executions": st.executions, "transitions": st.transitions, "threads": st.threads, "max_points_per_execution": st.maxPoints,
 			"complete_within_bound": st.complete, "by_preemptions": st.byPre, "distinct_observations(outcome x completion order)": len(st.orders), "free_run": map[bool]string{true: "no report", false: st.freeRace}[st.freeRace == ""]}
 		if !st.complete {
-			r.NotExhaustive("scenario %s not completed within the time budget", n)
+			r.NotExhaustive("scenario %s not completed within the time budget (pass %s)", n, pass)
 		}
 		for o, c := range st.outcomes {
-			r.Bulk(int64(c), 0, n+":"+o)
+			r.Bulk(int64(c), 0, pass+"/"+n+":"+o)
 		}
-		r.Bulk(0, int64(st.executions), n+":ok")
+		r.Bulk(0, int64(st.executions), pass+"/"+n+":ok")
 		r.AddStates(int64(st.executions))
 		r.AddTransitions(st.transitions)
 		r.AddTraces(int64(st.executions))
 		if len(st.sample) > 0 {
-			r.Sample(map[string]any{"scenario": n, "default_schedule(thread@site)": st.sample})
+			r.Sample(map[string]any{"pass": pass, "scenario": n, "default_schedule(thread@site)": st.sample})
 		}
 		if st.freeRace != "" && !st.raceSeen {
 			freeOnly++
@@ -556,12 +528,65 @@ func main() {
 			r.NotExhaustive("free-running report in %s not reproduced by an explored schedule", n)
 		}
 	}
-	r.Set("scenarios", per)
-	r.Set("free_run_only_reports", freeOnly)
-	r.Set("preemption_bound", bound)
+	per["build_s"] = float64(int(buildS*10)) / 10
+	per["worker_processes"] = nw
+	per["free_run_only_reports"] = freeOnly
+	return per
+}
+
+func main() {
+	r := mc.Start("C17", "model_checking")
+	seedv = r.Seed
+	root = r.Root
+	var err error
+	workDir, err = os.MkdirTemp("", "c17-")
+	if err != nil {
+		panic(err)
+	}
+	r.OnExit(func() { os.RemoveAll(workDir) })
+	fail := func(err error) {
+		fmt.Fprintln(os.Stderr, err)
+		fmt.Fprintln(os.Stderr, "BUILD-FAILED C17: the harness does not build against the tree under test")
+		os.RemoveAll(workDir)
+		os.Exit(2)
+	}
+	r.RegisterReplay("schedule", func(pj json.RawMessage) *mc.Viol {
+		var c replayCase
+		json.Unmarshal(pj, &c)
+		if err := buildHarness(r, c.Coarse); err != nil {
+			return nil
+		}
+		// a fresh worker per attempt: the race detector reports a given race once per process
+		for k := 0; k < 3; k++ {
+			w, err := startWorker()
+			if err != nil {
+				continue
+			}
+			rp, err := w.call(request{Scenario: c.Scenario, Prefix: c.Schedule})
+			w.stop()
+			if err != nil || rp == nil {
+				continue
+			}
+			if rp.Violation != nil {
+				return &mc.Viol{Sig: c.Scenario + ": " + sigOf(*rp.Violation), What: describe(*rp.Violation)}
+			}
+		}
+		return nil
+	})
+	if r.IsReplay() {
+		r.DoReplay()
+	}
+
+	passes := map[string]any{}
+	if r.Thorough() {
+		passes["fine-granularity-bound-1"] = runPass(r, "fine-b1", false, 1, 420*time.Second, fail)
+		passes["coarse-granularity-bound-2"] = runPass(r, "coarse-b2", true, 2, 600*time.Second, fail)
+	} else {
+		passes["coarse-granularity-bound-1"] = runPass(r, "coarse-b1", true, 1, 240*time.Second, fail)
+	}
+	r.Set("passes", passes)
 	r.Set("instrumented", instr)
-	r.Set("worker_processes", nw)
-	r.SetRule(fmt.Sprintf("per scenario (2-3 threads, one call each on one freshly constructed shared issuer / key): every schedule with at most %d pre-emptions at the inserted scheduling points, explored depth first from a central search tree; states = executions (stateless search: one state sequence per schedule), transitions = scheduling points executed; every execution is checked for race reports, result validity, deadlock and panics; distinct_nontrivial counts executions (each is a distinct schedule)", bound))
+	r.SetRule("per pass and scenario (2-3 threads, one call each on one freshly constructed shared issuer / key): every schedule with at most the pass's number of pre-emptions at the inserted scheduling points, explored depth first from a central search tree; states = executions (stateless search: one state sequence per schedule), transitions = scheduling points executed; every execution is checked for race reports, result validity, deadlock and panics; distinct_nontrivial counts executions (each is a distinct schedule). Quick: one pass (coarse granularity, bound 1); thorough: fine granularity with bound 1, then coarse granularity with bound 2")
 	r.Assume("calls into dependencies (circl, go-hpke, standard library) are atomic steps of a schedule; races inside them are still detected by happens-before analysis",
 		"the race detector keeps a bounded access history per memory word, so a given race is reported in some schedules and not in others; exploring all schedules within the bound is what makes the report reliable",
 		"memory-model effects weaker than sequential consistency are covered only through the race detector",
